@@ -10,7 +10,10 @@ import (
 	"fmt"
 	"math"
 	"os"
+	"path/filepath"
+	"regexp"
 	"sort"
+	"strconv"
 	"strings"
 
 	"github.com/janelia-flyem/dvid/datatype/common/labels"
@@ -38,9 +41,10 @@ type jcase struct {
 }
 
 // vstep: one step of a version history.  Nodes are numbered in creation order, 0 is the root.
-//   post/delete  Node, Spans        write the ROI at an open node
-//   child        Parent -> new node  commit Parent (if still open) and make a new version of it
-//   branch       Parent -> new node  commit Parent (if still open) and branch off it
+//
+//	post/delete  Node, Spans        write the ROI at an open node
+//	child        Parent -> new node  commit Parent (if still open) and make a new version of it
+//	branch       Parent -> new node  commit Parent (if still open) and branch off it
 type vstep struct {
 	Op     string     `json:"op"`
 	Node   int        `json:"node,omitempty"`
@@ -752,6 +756,139 @@ func genRoiVer(rng *lib.Rand) jcase {
 	return c
 }
 
+// localConst reads a function-local constant of the Go source from the file harness/cmd/gen wrote
+// (coq/Gen/LocalConsts.v): the boundary cases are built around the CURRENT value.
+func localConst(name string) int {
+	var txt []byte
+	var err error
+	for _, f := range []string{"../coq/Gen/LocalConsts.v", "coq/Gen/LocalConsts.v"} {
+		if txt, err = os.ReadFile(f); err == nil {
+			break
+		}
+	}
+	if err != nil {
+		if exe, e2 := os.Executable(); e2 == nil {
+			txt, err = os.ReadFile(filepath.Join(filepath.Dir(exe), "..", "..", "coq", "Gen", "LocalConsts.v"))
+		}
+	}
+	if err != nil {
+		fmt.Fprintln(os.Stderr, "cannot read coq/Gen/LocalConsts.v (generated by harness/cmd/gen):", err)
+		os.Exit(2)
+	}
+	m := regexp.MustCompile(`Definition z_` + name + ` : Z := \(?(-?[0-9]+)\)?%Z\.`).FindSubmatch(txt)
+	if m == nil {
+		fmt.Fprintln(os.Stderr, "constant", name, "is not in coq/Gen/LocalConsts.v")
+		os.Exit(2)
+	}
+	v, _ := strconv.Atoi(string(m[1]))
+	return v
+}
+
+// nth span of the boundary ROI: 100 single-block spans per row, rows stacked in y then z, with
+// negative rows too; distinct keys in key order
+func boundarySpan(i int) [4]int32 {
+	row := i / 100
+	return [4]int32{int32(row/200) - 1, int32(row%200) - 100, int32(i%100)*2 - 100, int32(i%100)*2 - 100}
+}
+
+var batchBase string
+
+// doRoiBatch posts c.Code spans (a count next to PutSpans' batch size) to ONE roi instance (each
+// POST replaces the ROI) and reports how many come back, the first that is missing and whether
+// the first and the last span answer point queries.
+func doRoiBatch(c jcase) {
+	n := int(c.Code)
+	bound := localConst("roi_PutSpans_BATCH_SIZE")
+	if batchBase == "" {
+		roiOpen()
+		roiN++
+		name := fmt.Sprintf("roibatch%d", roiN)
+		if err := dv.NewInstance(roiUUID, "roi", name, map[string]string{"BlockSize": "4,4,4"}); err != nil {
+			fmt.Fprintln(os.Stderr, err)
+			os.Exit(2)
+		}
+		batchBase = "/api/node/" + roiUUID + "/" + name
+	}
+	spans := make([][4]int32, n)
+	for i := range spans {
+		spans[i] = boundarySpan(i)
+	}
+	body, _ := json.Marshal(spans)
+	got := -1
+	first := "None"
+	probes := false
+	if r := dv.Post(batchBase+"/roi", body); r.Status == 200 {
+		var back [][4]int32
+		if g := dv.Get(batchBase + "/roi"); g.Status == 200 && json.Unmarshal(g.Body, &back) == nil {
+			got = len(back)
+			have := make(map[[4]int32]bool, len(back))
+			for _, sp := range back {
+				have[sp] = true
+			}
+			for i, sp := range spans {
+				if !have[sp] {
+					first = fmt.Sprintf("(Some %d)", i)
+					break
+				}
+			}
+			// a voxel of the first span, of the last span, and of the last span of the first batch
+			var pts [][3]int32
+			for _, i := range []int{0, n - 1, (bound - 1) % n, bound % n} {
+				sp := spans[i]
+				pts = append(pts, [3]int32{sp[2]*4 + 1, sp[1]*4 + 2, sp[0]*4 + 3})
+			}
+			pb, _ := json.Marshal(pts)
+			var ans []bool
+			if q := dv.Post(batchBase+"/ptquery", pb); q.Status == 200 && json.Unmarshal(q.Body, &ans) == nil && len(ans) == len(pts) {
+				probes = true
+				for _, a := range ans {
+					probes = probes && a
+				}
+			}
+		}
+	}
+	run.Count(fmt.Sprintf("boundary:roi-spans:%+d", n-bound*(n/bound)))
+	run.Add("roi-batch", fmt.Sprintf("(KBoundary 1%%nat %d %d %s %s %s)", n, bound, z(int64(got)), first, lib.CoqBool(probes)), c,
+		fmt.Sprintf("roibatch/%d/%d", n, bound))
+}
+
+// doReadBoundary streams c.Code runs (a count next to UnmarshalBinaryReader's preallocation cap)
+// through ReadRLEs and compares them with what was written.
+func doReadBoundary(c jcase) {
+	n := int(c.Code)
+	bound := localConst("dvid_ReadRLEs_maxPrealloc")
+	rles := make(dvid.RLEs, n)
+	for i := range rles {
+		rles[i] = dvid.NewRLE(dvid.Point3d{int32(i%1000)*3 - 1500, int32(i/1000) - 30, -7}, int32(1+i%2))
+	}
+	enc, _ := rles.MarshalBinary()
+	s := append([]byte{dvid.EncodingBinary, 3, 0, 0, 0, 0, 0, 0}, binary.LittleEndian.AppendUint32(nil, uint32(n))...)
+	s = append(s, enc...)
+	got := -1
+	first := "None"
+	ok := false
+	panicked, _ := lib.Recover(func() {
+		back, err := dvid.ReadRLEs(bytes.NewReader(s))
+		if err != nil {
+			return
+		}
+		got = len(back)
+		ok = true
+		for i := range rles {
+			if i >= len(back) || back[i] != rles[i] {
+				first = fmt.Sprintf("(Some %d)", i)
+				break
+			}
+		}
+	})
+	if panicked {
+		ok = false
+	}
+	run.Count(fmt.Sprintf("boundary:readrles:%+d", n-bound*(n/bound)))
+	run.Add("read-boundary", fmt.Sprintf("(KBoundary 2%%nat %d %d %s %s %s)", n, bound, z(int64(got)), first, lib.CoqBool(ok)), c,
+		fmt.Sprintf("readboundary/%d/%d", n, bound))
+}
+
 func doVbi(c jcase) {
 	spans := make([]dvid.Span, len(c.Spans))
 	for i, s := range c.Spans {
@@ -818,6 +955,10 @@ func dispatch(c jcase) {
 		doVbi(c)
 	case "roiver":
 		doRoiVer(c)
+	case "roi-batch":
+		doRoiBatch(c)
+	case "read-boundary":
+		doReadBoundary(c)
 	default:
 		fmt.Fprintln(os.Stderr, "unknown case kind", c.Kind)
 		os.Exit(2)
@@ -980,12 +1121,12 @@ func main() {
 	}
 
 	// ---- corpus: the inputs behind the recorded findings and the documented boundaries ----
-	dispatch(jcase{Kind: "fit", Runs: [][4]int32{{0, 0, 0, 1}}})                                 // FitToBounds(nil)
-	dispatch(jcase{Kind: "fit", Runs: [][4]int32{{-5, 2, -1, 9}, {10, 2, -1, 3}}})               // FitToBounds(nil)
-	dispatch(jcase{Kind: "blockindex", P: []int32{1 << 20, 0, 0}})                               // first value outside the packed range
-	dispatch(jcase{Kind: "blockindex", P: []int32{-(1 << 20), 0, 0}})                            // decodes to 0
+	dispatch(jcase{Kind: "fit", Runs: [][4]int32{{0, 0, 0, 1}}})                                  // FitToBounds(nil)
+	dispatch(jcase{Kind: "fit", Runs: [][4]int32{{-5, 2, -1, 9}, {10, 2, -1, 3}}})                // FitToBounds(nil)
+	dispatch(jcase{Kind: "blockindex", P: []int32{1 << 20, 0, 0}})                                // first value outside the packed range
+	dispatch(jcase{Kind: "blockindex", P: []int32{-(1 << 20), 0, 0}})                             // decodes to 0
 	dispatch(jcase{Kind: "blockindex", P: []int32{(1 << 20) - 1, -(1 << 20) + 1, math.MinInt32}}) // last values inside, and MinInt32
-	dispatch(jcase{Kind: "blockcode", Code: 1 << 20})                                            // "-0"
+	dispatch(jcase{Kind: "blockcode", Code: 1 << 20})                                             // "-0"
 	dispatch(jcase{Kind: "mask", Size: []int32{8, 8, 8}, Off: []int32{-4, -4, -4}, Q: []int32{4, 4, 4}, Spans: [][4]int32{{-1, -1, -1, -1}}})
 	dispatch(jcase{Kind: "add", Runs: [][4]int32{{0, 0, 0, 4}, {5, 0, 0, 4}}, Runs2: [][4]int32{{2, 0, 0, 5}}})
 
@@ -1180,6 +1321,21 @@ func main() {
 		dispatch(jcase{Kind: "readrles", Bytes: s})
 	}
 
+	// ---- sizes next to the internal batch / preallocation sizes (read from the source) ----
+	{
+		b := localConst("roi_PutSpans_BATCH_SIZE")
+		for _, n := range []int{b - 1, b, b + 1, 2 * b} {
+			if n >= 1 && n <= 200000 {
+				dispatch(jcase{Kind: "roi-batch", Code: uint64(n)})
+			}
+		}
+		m := localConst("dvid_ReadRLEs_maxPrealloc")
+		for _, n := range []int{m - 1, m, m + 1, 2 * m} {
+			if n >= 1 && n <= 1<<20 {
+				dispatch(jcase{Kind: "read-boundary", Code: uint64(n)})
+			}
+		}
+	}
 	// ---- ROI version histories (HTTP): every version against its own spans ----
 	for i := 0; i < 6*mul; i++ {
 		dispatch(genRoiVer(rng))
